@@ -535,6 +535,68 @@ func TestCheck(t *testing.T) {
 			c.SetExhaustive("mode_tails_exhaustive", true)
 		}
 
+		// every run length of every character class (alone, followed and preceded by a foreign character):
+		// length boundaries of length fields (Base-256 249|250), of symbol capacities and of triplet / quadruplet groups
+		{
+			classes := []struct {
+				name  string
+				chars string
+				max   [2]int // quick, thorough
+			}{
+				{"digits", "0123456789", [2]int{420, 3140}},
+				{"upper", "ABCDEFGHIJ", [2]int{320, 2400}},
+				{"lower", "abcdefghij", [2]int{320, 2400}},
+				{"x12", "AB>CD*EF\r12", [2]int{320, 2400}},
+				{"edifact", "A.B-C/D:E;F,", [2]int{320, 2200}},
+				{"extended", "\u00e9\u00d0\u00ff\u0080\u00a0", [2]int{320, 1570}},
+				{"shift2", "!\"#$%&'()", [2]int{200, 1000}},
+			}
+			var n int64
+			idx := 0
+			stop := false
+			for _, cl := range classes {
+				maxLen := cl.max[0]
+				if c.Thorough() {
+					maxLen = cl.max[1]
+				}
+				rs := []rune(cl.chars)
+				for L := 1; L <= maxLen && !stop; L++ {
+					// quick: every length up to the quick bound, plus the Base-256 two-byte boundary region
+					body := make([]rune, L)
+					for i := range body {
+						body[i] = rs[(i*7+L)%len(rs)]
+					}
+					for v := 0; v < 3 && !stop; v++ {
+						idx++
+						if !c.Mine(idx) {
+							continue
+						}
+						text := string(body)
+						switch v {
+						case 1:
+							text += "a"
+							if cl.name == "lower" {
+								text = string(body) + "A"
+							}
+						case 2:
+							text = "Q" + text
+							if cl.name == "upper" {
+								text = "q" + string(body)
+							}
+						}
+						cs := Case{Text: text, Path: "codewords"}
+						raw, _ := json.Marshal(cs)
+						if err := hx.Safe(func() error { return check(raw) }); err != nil {
+							stop = !c.Enum("run_lengths_exhaustive", "dm_roundtrip", cs, nil)
+						}
+						n++
+					}
+				}
+			}
+			c.NoteBulk("run_lengths_exhaustive", "", n, n, func() any { return Case{Text: "(249 x extended)a", Path: "codewords"} })
+			c.SetExhaustive("run_lengths_exhaustive", c.Thorough())
+		}
+
 		// refusal side: text outside ISO-8859-1 must be refused
 		c.Rapid("not_latin1_refused", c.N(300, 3000), func(t *rapid.T) {
 			pre, _ := genText(t, 10)
